@@ -135,6 +135,34 @@ func getEndOfLastValuePositionInFile(fname string, startPos int64) (int64, error
 	}
 }
 
+// followReset clears everything that a replay of the log rebuilds: the
+// collections, the hooks and channels with their indexes, and the aof size.
+func (s *Server) followReset() {
+	s.cmdFLUSHDB(&Message{Args: []string{"flushdb"}})
+	s.reset()
+}
+
+// followStartOver prepares a resync from position zero. The leader is going
+// to stream its entire log, so the follower must start from an empty log, an
+// empty dataset and a zero aof size; otherwise data that it held before
+// would survive next to the leader's, its log would grow by a full copy on
+// every reconnect, and the stale aof size would make it report caught up
+// before the stream has been applied.
+func (s *Server) followStartOver() error {
+	if s.aof != nil {
+		fname := s.aof.Name()
+		s.aof.Close()
+		f, err := os.Create(fname)
+		if err != nil {
+			log.Fatalf("could not recreate aof, possible data loss. %s", err.Error())
+			return err
+		}
+		s.aof = f
+	}
+	s.followReset()
+	return nil
+}
+
 // followCheckSome is not a full checksum. It just "checks some" data.
 // We will do some various checksums on the leader until we find the correct position to start at.
 func (s *Server) followCheckSome(addr string, followc int, auth string,
@@ -147,8 +175,11 @@ func (s *Server) followCheckSome(addr string, followc int, auth string,
 	if int(s.followc.Load()) != followc {
 		return 0, errNoLongerFollowing
 	}
+	// the checksums below are computed on the file: bring it up to aofsz
+	s.flushAOF(false)
 	if s.aofsz < checksumsz {
-		return 0, nil
+		// too small to compare checksums: start over from position zero
+		return 0, s.followStartOver()
 	}
 
 	conn, err := DialTimeout(addr, time.Second*2)
@@ -194,13 +225,7 @@ func (s *Server) followCheckSome(addr string, followc int, auth string,
 	fullpos := pos
 	fname := s.aof.Name()
 	if pos == 0 {
-		s.aof.Close()
-		s.aof, err = os.Create(fname)
-		if err != nil {
-			log.Fatalf("could not recreate aof, possible data loss. %s", err.Error())
-			return 0, err
-		}
-		return 0, nil
+		return 0, s.followStartOver()
 	}
 
 	// we want to truncate at a command location
@@ -209,7 +234,8 @@ func (s *Server) followCheckSome(addr string, followc int, auth string,
 	if err != nil {
 		return 0, err
 	}
-	if pos == fullpos {
+	if pos == fullpos && pos == int64(s.aofsz) {
+		// nothing follows the matching part
 		if s.opts.ShowDebugMessages {
 			log.Debug("follow: aof fully intact")
 		}
@@ -229,7 +255,7 @@ func (s *Server) followCheckSome(addr string, followc int, auth string,
 	}
 	// reset the entire system.
 	log.Infof("reloading aof commands")
-	s.reset()
+	s.followReset()
 	if err := s.loadAOF(); err != nil {
 		log.Fatalf("could not reload aof, possible data loss. %s", err.Error())
 		return 0, err
